@@ -780,6 +780,10 @@ func (b *bitstream) readDecimal(length uint64) (*Decimal, error) {
 	if length > 0 {
 		// readBigInt drops the sign of a zero magnitude; only a set sign bit makes it negative zero.
 		signByte, peekErr := b.peekAtOffset(0)
+		if peekErr != nil && peekErr != io.EOF && peekErr != bufio.ErrBufferFull {
+			// Peek reports a failure of the underlying reader once and then forgets it.
+			return nil, peekErr
+		}
 
 		if err := b.readBigInt(length, coef); err != nil {
 			return nil, err
